@@ -101,8 +101,17 @@ class Gen(object):
             if k < 0.9:
                 return {'k': 'ann', 'name': self.name(), 'site': 0, 'value': self.expr(0, 1) if self.rng.random() < 0.7 else None}
             return {'k': 'assign', 'targets': [('n', self.name(), 0)], 'value': self.expr(1, 2)}
-        if r < 0.36:
+        if r < 0.32:
             return {'k': 'expr', 'value': self.expr(1, 3)}
+        if r < 0.36:
+            # body if (name := value) else orelse: the test is evaluated first, its walrus is visible in both arms
+            nm = self.name()
+            self.maybe.add(nm)
+            arm = [('r', nm, 0)] + [a for a in self.expr(0, 1) if a[0] == 'r']
+            other = [a for a in self.expr(0, 2) if a[0] == 'r']
+            if self.rng.random() < 0.5:
+                other.append(('r', nm, 0))
+            return {'k': 'ifexp', 'name': nm, 'site': 0, 'body': arm, 'orelse': other}
         if r < 0.42:
             # a decorated def / class statement: decorator expressions are read in the enclosing body, then the name is bound
             nm = self.name()
@@ -328,6 +337,10 @@ def number(body):
         elif k == 'defstmt':
             s['decos'] = ex(s['decos'])
             s['site'] = f('bind', s['name'])
+        elif k == 'ifexp':
+            s['body'] = ex(s['body'])
+            s['site'] = f('bind', s['name'])
+            s['orelse'] = ex(s['orelse'])
         elif k == 'if':
             s['test'] = ex(s['test'])
             s['body'] = blk(s['body'])
@@ -383,6 +396,10 @@ def bound_names(body):
                 ex(s.get('value'))
             elif k == 'defstmt':
                 ex(s['decos'])
+                out.add(s['name'])
+            elif k == 'ifexp':
+                ex(s['body'])
+                ex(s['orelse'])
                 out.add(s['name'])
             elif k in ('if', 'while'):
                 ex(s['test'])
@@ -488,6 +505,11 @@ def render(body, flavour='func', pre=None, layout=None):
                 out.append(head + expr(s['value'], line, len(head), fn='_vo.v(%r, _vo.e' % ([s['site']],)) + ')')
         elif k == 'expr':
             out.append(pad + expr(s['value'], line, len(pad)))
+        elif k == 'ifexp':
+            text = pad + expr(s['body'], line, len(pad))
+            R.site_pos[s['site']] = (line, s['name'])
+            text += ' if _vo.d((%s := _vo.b(%d))) else ' % (s['name'], s['site'])
+            out.append(text + expr(s['orelse'], line, len(text)))
         elif k == 'defstmt':
             # the decorator replaces the function / class by the token of this binding site
             head = pad + '@_vo.dk(%d, ' % s['site']
@@ -660,6 +682,9 @@ def reduce_nodes(body):
             return seq(ex(s['value']))
         if k == 'defstmt':
             return seq(ex(s['decos']) + [new(k='bind', n=s['name'], s=s['site'])])
+        if k == 'ifexp':
+            return seq([new(k='bind', n=s['name'], s=s['site']),
+                        new(k='if', c=[0, seq(ex(s['body'])), seq(ex(s['orelse']))])])
         if k == 'return':
             return seq(ex(s['value']) + [new(k='return')])
         if k == 'pass':
